@@ -841,7 +841,18 @@ func c20CLI(c *ev.Ctx) {
 			}
 			return
 		}
-		if !strings.HasPrefix(out, cliResultLine(res)) {
+		// the engine itself may have written diagnostics to standard output while the script
+		// ran (an invalid regular expression met at run time, a value it could not reflect):
+		// they come before the report, which must still be the first report and exact
+		report := out
+		if idx := strings.Index(out, "Script gave result"); idx > 0 {
+			pre := out[:idx]
+			if strings.HasPrefix(pre, "Invalid regular expression ") || strings.HasPrefix(pre, "Failed to reflect on ") || strings.HasPrefix(pre, "Failed to convert ") {
+				report = out[idx:]
+				c.Count("cli_reports_preceded_by_engine_diagnostics", 1)
+			}
+		}
+		if !strings.HasPrefix(report, cliResultLine(res)) {
 			c.Violation(id, "CLI result differs from Execute", map[string]interface{}{
 				"summary": fmt.Sprintf("driver printed %q; Execute gives type:%s value:%s truth:%v, so the first line must be %q\n  args: %v\n  script: %s", clip(out, 300), res.Type(), clip(res.Inspect(), 200), res.True(), clip(cliResultLine(res), 300), args[1:], script), "script": script})
 		}
@@ -851,7 +862,8 @@ func c20CLI(c *ev.Ctx) {
 	})
 	// every kind of result value, with characters that matter to a formatter
 	hostile := []string{`"50%"`, `"%s %d %v"`, `"100%!"`, `"%"`, `["%s", 3]`, `{"%d": "%%"}`, `sprintf("%d%%", 75)`, `"line1\nline2"`, `"it's"`, `"a - which is 'true'."`, `" value:x"`, `"type:INTEGER"`,
-		`"tab\there"`, `"q\"uote"`, `"狐犬 é"`, `""`, `" "`, `0`, `-1`, `70000`, `1.5`, `-0.0`, `true`, `false`, `null`, `[]`, `[1, "a", [2]]`, `{}`, `{"a": {"b": [1]}}`, `/re%s/`, `1 == 1`, `Doc`, `Doc.pct`, `Missing`}
+		`"tab\there"`, `"q\"uote"`, `"狐犬 é"`, `""`, `" "`, `0`, `-1`, `70000`, `1.5`, `-0.0`, `true`, `false`, `null`, `[]`, `[1, "a", [2]]`, `{}`, `{"a": {"b": [1]}}`, `/re%s/`, `1 == 1`, `Doc`, `Doc.pct`, `Missing`,
+		`[1, /a/]`, `{"pat": /eve$/i}`, `[[1, [/x/i]], "y"]`, `[null, [null]]`, `{1: {2.5: [true, null]}}`, `[1.5, -2, "x", /y/, true, null, [], {}]`}
 	for hi, hv := range hostile {
 		for fi, flags := range [][]string{{}, {"-no-optimizer"}, {"-timeout", "10s"}} {
 			id := fmt.Sprintf("cli-value/%d/%d", hi, fi)
